@@ -148,10 +148,106 @@ def nontrivial(case, out):
     return (f"{op}:{min(nkeys, 6)}keys", " ".join(toks[2:]))
 
 
+# ------------------------------------------------------------------ paths as keys on real types
+
+def usize_from_str(t):
+    """Rust `usize::from_str` (64 bit): optional `+`, then decimal digits only"""
+    if t.startswith("+"):
+        t = t[1:]
+    if not t or any(c not in "0123456789" for c in t):
+        return None
+    v = int(t)
+    return v if v < 2 ** 64 else None
+
+
+def resolve(s, segs):
+    """the documented walk with string keys: (`outcome depth`, callback log)"""
+    import treecases as T
+    import spec as S
+    log, d = [], 0
+    for k in segs:
+        if s[0] == "leaf":
+            return f"tooLong {d}", log
+        n = S.nchildren(s)
+        names = [S.name_of(s, i) for i in range(n)] if s[0] == "node" and S.name_of(s, 0) is not None else None
+        if names is not None:
+            i = names.index(k) if k in names else None
+        else:
+            i = usize_from_str(k)
+            if i is not None and i >= n:
+                i = None
+        if i is None:
+            return f"notFound {d + 1}", log
+        log.append(f"{i}:{T.enc(names[i]) if names is not None else '-'}:{n}")
+        s = S.child(s, i)
+        d += 1
+    return (f"ok {d}" if s[0] == "leaf" else f"tooShort {d}"), log
+
+
+def key_cases(rng, tier):
+    """`Path<&str, S>` / `JsonPath` used as KEYS on generated types: the keys the traversal sees are
+    `split(S).skip(1)` of the text (anything before the first separator is ignored, doubled / trailing separators are
+    empty keys) and the documented reading of the JSON notation"""
+    import treecases as T
+    import spec as S
+    import typelevel as TL
+    types = TL.enumerable(T.load_corpus())
+    c = TL.Cases(types)
+    seps = {"path47": "/", "path46": ".", "path233": "é", "path128512": "😀"}
+    junks = ["", "x", "0", "éa", " ", "+1"]
+    for t in types:
+        s = T.tup(t["schema"])
+        nodes = T.all_nodes(s, limit=40 if tier == "quick" else 150)
+        for rep, sep in seps.items():
+            if not TL.rep_ok(s, rep):
+                continue
+            for p in nodes:
+                ks = T.key_strs(s, p)
+                clean = "".join(sep + k for k in ks)
+                variants = {j + clean for j in junks if sep not in j}
+                variants.add(clean + sep)                       # trailing separator: one more (empty) key
+                if ks:
+                    cut = rng.randrange(len(ks))
+                    variants.add("".join(sep + k for k in ks[:cut]) + sep + "".join(sep + k for k in ks[cut:]))  # doubled
+                    variants.add("".join(sep + k for k in ks[:-1]) + sep + "+" + ks[-1])   # `+` numeral
+                for text in sorted(variants):
+                    segs = text.split(sep)[1:]
+                    res, log = resolve(s, segs)
+                    c.add(t["tid"], f"trav P{ord(sep)}:{T.enc(text)} -", f"{res} cb={','.join(log) or '-'}",
+                          f"Path<&str, {sep!r}>({text!r}) as keys on {t['label']} must be the keys {segs!r}", "pathkeys:" + rep)
+        # the written form of a node (what `Transcode` produces) is the text whose split is the node's keys
+        for p in nodes:
+            typ = T.node_type(s, p)
+            for target in ("path47", "path128512", "json"):
+                if not TL.rep_ok(s, target):
+                    continue
+                shown, fail = T.show_target(s, p, target, TL.BIG)
+                if fail is None:
+                    c.add(t["tid"], f"xcode {T.render(s, p, 'indices')} {target} {TL.BIG}", f"{typ} {len(p)} {shown}",
+                          f"written {target} form of node {p} of {t['label']}", "written:" + target)
+        if TL.rep_ok(s, "json"):
+            for p in nodes:
+                info = T.level_info(s, p)
+                for style in range(3):
+                    txt, segs = "", []
+                    for j, (i, n, _cnt) in enumerate(info):
+                        k = n if n is not None else str(i)
+                        segs.append(k)
+                        txt += [f".{k}" if n is not None else f"[{k}]", f"['{k}']", f".'{k}'"][(j + style) % 3 if style else 0]
+                    for tail in ("", "junk", "[", ".", "[]", "]x", "['", ".''"):
+                        keys, _rest = jref(txt + tail)      # the documented reading of the notation
+                        res, log = resolve(s, keys)
+                        c.add(t["tid"], f"trav J:{T.enc(txt + tail)} -", f"{res} cb={','.join(log) or '-'}",
+                              f"JsonPath({txt + tail!r}) as keys on {t['label']} must be the keys {keys!r}", "jsonkeys")
+    return c
+
+
 def run(rep, rng, tier):
     pl = proof_layer("C15", thorough=(tier == "thorough"))
     cases, meta = gen_cases(rng, tier)
     r = paired_run(rep, cases, make_oracle(meta), nontrivial)
+    kc = key_cases(rng, tier)
+    r2 = paired_run(rep, kc.lines, kc.oracle, kc.nontrivial)
     for f in pl["failures"]:
         rep.violation("proof", {"theorem_or_translator": f, "property_module": "MiniconfVerif.Props.C15"}, no_input=True)
     rep.coverage = {
@@ -162,7 +258,9 @@ def run(rep, rng, tier):
             "Model/PathIter.lean is hand-written; tied to node.rs/jsonpath.rs by the `st` correspondence stream of this run",
             "harness/src/st.rs, checker/c15.py (Python str.split oracle and rule-table reference)"],
         "theorems": pl["theorems"],
-        "evaluations": r["n"] if r else 0,
+        "evaluations": (r["n"] if r else 0) + (r2["n"] if r2 else 0),
+        "path_and_jsonpath_as_keys_on_corpus_types": {"cases": r2["n"] if r2 else 0, "model_disagreements": r2["diffs"] if r2 else None,
+                                                        "oracle_failures": r2["oracle_failures"] if r2 else None},
         "distinct_nontrivial": r["distinct"] if r else 0,
         "exhaustive": True,
         "rule": f"all strings over {ALPHA} up to length {5 if tier == 'quick' else 6} × separators / . é 😀 for PathIter and the same "
